@@ -228,5 +228,12 @@ _rep("C06", "value 0-3)/acquire/release/take_ownership/free on two names", "valu
 _rep("C08", "of capacity S in {1,2,3,5,8,16,64} with 1-3 handles", "of capacity S in {1,2,3,5,8,16,64} (1 run in 8: 255-9000, across a page) with 1-4 handles, some opened while the queue holds data,")
 _rep("C09", "numbered datagrams of 4-2000 B, short receive buffers)", "numbered datagrams of 0-2000 B, short receive buffers, full source address compared)")
 _rep("C10", "timeouts from {0,1,50,1000,60000,negative},", "timeouts from {0,1,50,1000,60000,-5} and rarely {-1, 4294968, INT_MAX}, calls that fail on an open socket (listen / keep-alive / bind refused),")
+_rep("C03", "a single parked waiter signalled once,", "a single parked waiter signalled once (in a third of the gate / single-waiter runs the notifier keeps the mutex for 0.3-61 s of simulated time before it changes the predicate and notifies),")
+_rep("C08", "compared with a FIFO byte-queue model after every call,", "compared with a FIFO byte-queue model after every call, with EINTR injected into the lock waits (sem_wait) and the open calls in half of the runs,")
+_rep("C09", "blocking and non-blocking ends mixed,", "blocking and non-blocking ends mixed, a third of the blocking stream sockets with a 200 ms / 5 s / 60 s timeout (a reported time-out must have lasted that long on the simulated clock),")
+_rep("C10", "timeouts from {0,1,50,1000,60000,-5}", "blocking flag given as TRUE or another non-zero int (2, 4, 256, -2), timeouts from {0,1,50,1000,60000,-5}")
+for _p, _probes in (("C03", ["cond.notifier_holds_mutex_for_simulated_time"]), ("C08", ["eintr.sem_wait"]), ("C09", ["data.blocking_with_timeout", "data.timeout_elapsed_for_real"])):
+    for _x in _probes:
+        if _x not in PROPS[_p]["probes"]: PROPS[_p]["probes"].append(_x)
 _rep("C18", "one (scenario, k, mode) triple: one of 17 allocating scenarios", "one (scenario, parameters, k, mode) point: one of 17 allocating scenarios, each parametrised by six drawn values (lengths, key sets, operation sequences, files, socket variant, thread count),")
 _rep("C19", "shm create + lock held by another task;", "shm create + lock held by another task + a second handle of the existing segment opened from another process (same object, bytes, size and lock; the segment survives that handle);")
